@@ -10,7 +10,10 @@ def cfgs(ctx):
     return ["A", "B"] if ctx.tier == "quick" else ["A", "B", "C", "D"]
 
 
-def numeric(ctx, db, path, rules_, weighted=False, pair=False, accessor_args=None, laws=(), extra_contracts=None, e_extra=(), skip=(), only=None, mag_max=None):
+VALUE_BOX = {"smin": 1e-30, "smax": 1e30, "nmax": 1e6}   # C01 value domain (properties C01-C04, C10)
+
+
+def numeric(ctx, db, path, rules_, weighted=False, pair=False, accessor_args=None, laws=(), extra_contracts=None, e_extra=(), skip=(), only=None, mag_max=None, box=None):
     """run the shared scenarios of one estimator once and apply the selected numeric-structure rules"""
     import num_rules as N
     e = Est(db, path)
@@ -24,6 +27,8 @@ def numeric(ctx, db, path, rules_, weighted=False, pair=False, accessor_args=Non
         N.r_dim(ctx, db, e, scen, extra_contracts)
     if "mag" in rules_ and "dim" in rules_:
         N.r_mag(ctx, db, e, scen, mag_max)
+    if box and "dim" in rules_:
+        N.r_mag_box(ctx, db, e, scen, box)
     if "sign" in rules_:
         N.r_sign(ctx, db, e, scen, weighted=weighted)
     if "div" in rules_:
@@ -108,7 +113,7 @@ def c04(ctx):
             if cfg == "A" and t != "m5::M5":
                 continue   # cfg A (serde arm of define_moments_inner!) is the same expansion; one instantiation cross-checks it
             r = numeric(ctx, db, t, ("count", "dim", "mag", "sign", "div", "shift"), accessor_args=moment_args(N_), mag_max=N_,
-                        skip=("sample_skewness", "sample_excess_kurtosis", "sample_variance"),
+                        skip=("sample_skewness", "sample_excess_kurtosis", "sample_variance"), box=dict(VALUE_BOX, order=N_),
                         extra_contracts=moment_contracts(N_), laws=("L1", "L2", "L3", "L4") if (N_ <= 6 or ctx.tier == "thorough") else ("L1", "L2", "L3"))
             if not r:
                 continue
@@ -121,6 +126,12 @@ def c04(ctx):
                     k = 6
                 NL.stream_definitions(ctx, db, r[0], k, defs)
     ctx.floor("define_moments! instantiations analysed", n, 5)
+
+
+def merge_stability(ctx, db, t):
+    """numerical structure of merge (and add) of one moment-family type: dimensions, shift behaviour
+    (no intermediate carries a common offset to a power > 1) and division guards"""
+    return numeric(ctx, db, t, ("dim", "shift", "div"), only=("mean",))
 
 
 def c02(ctx):
@@ -137,6 +148,8 @@ def c02(ctx):
         which = ("L2", "L3", "L4")
         R.laws_add_merge(ctx, db, e, which)
         R.r_ident_merge(ctx, db, e)
+        if ctx.tier == "thorough" or t not in ("m8::M8", "m10::M10"):
+            merge_stability(ctx, db, t)
         print(t, "%.1fs" % (time.time() - t0))
     ctx.floor("Merge types of the moment family analysed", n, 10)
 
@@ -485,6 +498,7 @@ def c19(ctx):
         if not t.startswith("minmax"):
             R.laws_add_merge(ctx, db, e, ("L2", "L3", "L4"))
             R.r_count(ctx, db, e, "A")
+            merge_stability(ctx, db, t)   # "within the envelope" needs a cancellation-free merge (C02)
     ctx.floor("from_par_iter impls analysed", n, 18)
 
 
